@@ -456,13 +456,16 @@ fn strategy_many(t: Tier) -> BoxedStrategy<ManyCase> {
     // number of cubes, about 2 s per case at 2^16 in a release build
     let total = match t {
         Tier::Quick => prop_oneof![2 => 65_530usize..=65_560, 1 => 65_561usize..=66_200].boxed(),
-        Tier::Thorough => prop_oneof![4 => 65_530usize..=65_560, 3 => 65_561usize..=70_000, 1 => 131_060usize..=131_100].boxed(),
+        Tier::Thorough => prop_oneof![8 => 65_530usize..=65_560, 6 => 65_561usize..=70_000, 3 => 131_060usize..=131_100, 1 => 262_130usize..=262_160].boxed(),
     };
     (17usize..=19, any::<u32>(), any::<u32>(), total, 1usize..=999, 0usize..=40, proptest::collection::vec(any::<u32>(), 64..=64))
         .prop_map(|(n, mul, off, total, split, overlap, probes)| {
             let na = std::cmp::max(1, total * split / 1000);
             let nb = total - na + overlap;
-            let n = if na + std::cmp::max(nb, 1) > (1usize << n) { n + 1 } else { n };
+            let mut n = n;
+            while na + std::cmp::max(nb, 1) > (1usize << n) {
+                n += 1;
+            }
             ManyCase { n, mul: mul | 1, off, na, nb: std::cmp::max(nb, 1), overlap: std::cmp::min(overlap, na), probes }
         })
         .boxed()
@@ -512,7 +515,7 @@ pub fn run_many(c: &ManyCase) -> Verdict {
             return fail("many:cubes", format!("a | b of minterm covers ({} distinct minterms over {} variables): cubes() evaluate to {} on {:#x}", total, n, !member[m], m));
         }
     }
-    pass(total >= 65_536, vec![format!("n:{}", n), format!("total:{}", if total >= 131_072 { ">=2^17" } else if total >= 65_536 { ">=2^16" } else { "<2^16" })])
+    pass(total >= 65_536, vec![format!("n:{}", n), format!("total:{}", if total >= 262_144 { ">=2^18" } else if total >= 131_072 { ">=2^17" } else if total >= 65_536 { ">=2^16" } else { "<2^16" })])
 }
 
 fn _unused(_: Cube) {}
@@ -545,9 +548,9 @@ pub fn def() -> PropDef {
         }),
         Box::new(Sub {
             name: "manycubes",
-            rule: "a | b of two minterm covers over 17..=19 variables whose union has 65530..66200 (quick) / up to 70000 and around 2^17 (thorough) distinct minterms, split anywhere between the operands, with 0..40 common minterms; minterms picked by an affine bijection modulo 2^n. Oracle: value() of the result and the OR of its cubes() on ~260 probes (members of either operand incl. first/middle/last, their one-bit neighbours, drawn assignments) against set membership. Non-trivial = at least 2^16 distinct minterms (the first size where a 16-bit cube index would wrap).",
+            rule: "a | b of two minterm covers over 17..=19 variables whose union has 65530..66200 (quick) / up to 70000, around 2^17 and rarely 2^18 (thorough) distinct minterms, split anywhere between the operands, with 0..40 common minterms; minterms picked by an affine bijection modulo 2^n. Oracle: value() of the result and the OR of its cubes() on ~260 probes (members of either operand incl. first/middle/last, their one-bit neighbours, drawn assignments) against set membership. Non-trivial = at least 2^16 distinct minterms (the first size where a 16-bit cube index would wrap).",
             strategy: strategy_many,
-            cases: (3, 24),
+            cases: (6, 120),
             exhaustive: None,
             exhaustive_note: "",
             run: run_many,
